@@ -36,6 +36,8 @@ func gen(stream, tier string, seed uint64) {
 		genHist(tier, seed)
 	case "roundtrip":
 		genRoundtrip(tier, seed)
+	case "tags":
+		genTags(tier, seed)
 	case "remarshal":
 		genRemarshal(tier, seed)
 	case "clone":
